@@ -64,9 +64,34 @@ func dev(args []string) {
 	dump := fs.String("dump", "", "directory for SMT files")
 	solvers := fs.String("solvers", "", "")
 	verbose := fs.Bool("v", false, "")
+	family := fs.String("family", "", "router: generate the router family into -scratch and verify the generated packages")
+	setsFlag := fs.String("sets", "", "comma-separated route-set ids (default all corner sets)")
+	scratch := fs.String("scratch", "/tmp/govc-family", "")
 	fs.Parse(args)
 	t0 := time.Now()
-	e, err := eng.Load(eng.Config{RepoDir: *repo, Pkgs: fs.Args(), MirrorDir: "/verif/contracts", StdlibDir: "/verif/stdlib"})
+	cfg := eng.Config{RepoDir: *repo, Pkgs: fs.Args(), MirrorDir: "/verif/contracts", StdlibDir: "/verif/stdlib"}
+	if *family == "router" {
+		os.MkdirAll(*scratch, 0o755)
+		var sets []eng.RouteSet
+		for _, rs := range eng.RouterFamily(1, 24) {
+			if *setsFlag == "" || strings.Contains(","+*setsFlag+",", ","+rs.ID+",") {
+				sets = append(sets, rs)
+			}
+		}
+		mod, err := eng.GenerateRouterFamily(*repo, sets, *scratch)
+		if err != nil {
+			fmt.Fprintln(os.Stderr, "family:", err)
+			os.Exit(2)
+		}
+		fmt.Printf("generated %d packages in %.1fs\n", len(sets), time.Since(t0).Seconds())
+		cfg.ModDir = mod
+		cfg.Pkgs = nil
+		for _, rs := range sets {
+			cfg.Extra = append(cfg.Extra, eng.ExtraPkg{Dir: mod + "/" + rs.ID, Pattern: "./" + rs.ID})
+		}
+		cfg.Extra = append(cfg.Extra, eng.ExtraPkg{Dir: *repo + "/uri", Pattern: "github.com/ogen-go/ogen/uri", Mirror: "/verif/contracts/uri"})
+	}
+	e, err := eng.Load(cfg)
 	if err != nil {
 		fmt.Fprintln(os.Stderr, "load:", err)
 		os.Exit(2)
